@@ -58,6 +58,7 @@ def run(tier, seed):
     else:
         fam += ce.triple_family(rng, 150)
     fam += ce.aba_family()
+    fam += ce.clock_family()
     res = ce.run_dfs(fxv, rd, fam, "pairs", maxsched=300 if tier == "quick" else 1500,
                      preempt=2 if tier == "quick" else 3)
     ok = collect(PROP, res, rd, INV, viol, st)
